@@ -20,6 +20,17 @@ if TYPE_CHECKING:
 logger = logging.getLogger(__name__)
 
 
+def _hold_crashed(entity, delta: int) -> None:
+    """Open (+1) or close (-1) one crash/pause window on ``entity``.
+
+    Windows may overlap, so the number of open ones is counted and
+    ``_crashed`` stays set until the last of them has ended.
+    """
+    open_windows = max(0, getattr(entity, "_crash_windows", 0) + delta)
+    entity._crash_windows = open_windows
+    entity._crashed = open_windows > 0
+
+
 @dataclass(frozen=True)
 class CrashNode:
     """Crash a node at a specific time, optionally restart later.
@@ -44,7 +55,7 @@ class CrashNode:
         events: list[Event] = []
 
         def crash(e: Event) -> None:
-            entity._crashed = True  # type: ignore[attr-defined]
+            _hold_crashed(entity, +1)
             logger.info("[FaultInjection] Crashed '%s' at %s", entity_name, e.time)
 
         events.append(
@@ -59,7 +70,7 @@ class CrashNode:
         if self.restart_at is not None:
 
             def restart(e: Event) -> None:
-                entity._crashed = False  # type: ignore[attr-defined]
+                _hold_crashed(entity, -1)
                 logger.info(
                     "[FaultInjection] Restarted '%s' at %s",
                     entity_name,
@@ -101,11 +112,11 @@ class PauseNode:
         events: list[Event] = []
 
         def pause(e: Event) -> None:
-            entity._crashed = True  # type: ignore[attr-defined]
+            _hold_crashed(entity, +1)
             logger.info("[FaultInjection] Paused '%s' at %s", entity_name, e.time)
 
         def resume(e: Event) -> None:
-            entity._crashed = False  # type: ignore[attr-defined]
+            _hold_crashed(entity, -1)
             logger.info("[FaultInjection] Resumed '%s' at %s", entity_name, e.time)
 
         events.append(
